@@ -155,7 +155,8 @@ func fieldPath(fieldDescs protoreflect.FieldDescriptors, names ...string) []prot
 		// advance
 		if i != len(fds)-1 {
 			msgDesc := fd.Message()
-			if msgDesc == nil {
+			if msgDesc == nil || fd.IsList() || fd.IsMap() {
+				// Only singular message fields can be traversed.
 				return nil
 			}
 			fieldDescs = msgDesc.Fields()
